@@ -97,37 +97,73 @@ static bool isCharTbaa(const MDNode* AT) {
   return false;
 }
 
-// A plain load is not a scheduling point if no thread body of the module contains a store that may alias it
-// (TBAA access types, the same type-based no-alias assumption the compiler makes): data that is only read
-// while the threads run cannot be observed differently under any interleaving.
-void Translator::computeStoredTypes() {
+// A plain load is not a scheduling point if no thread body of the module contains a write that may alias it.
+// Two accesses are provably disjoint if (a) both carry TBAA access types and these differ (the compiler's own
+// type-based no-alias assumption), or (b) both address a constant offset of the same struct type (field
+// sensitivity) and the byte ranges do not overlap.  Data that is only read while the threads run cannot be
+// observed differently under any interleaving.
+static AccessDesc describeAccess(const Instruction& I, const Value* P, Type* VT, const DataLayout& DL) {
+  AccessDesc d;
+  d.tbaa = tbaaAccessType(I);
+  if (d.tbaa && isCharTbaa(d.tbaa)) d.tbaa = nullptr;
+  d.size = VT->isSized() ? DL.getTypeStoreSize(VT) : 0;
+  const Value* B = P->stripPointerCasts();
+  if (auto* G = dyn_cast<GEPOperator>(B)) {
+    APInt o(64, 0);
+    if (G->accumulateConstantOffset(DL, o) && G->getSourceElementType()->isStructTy()) {
+      d.st = G->getSourceElementType();
+      d.off = o.getSExtValue();
+    }
+  }
+  return d;
+}
+static bool provablyDisjoint(const AccessDesc& a, const AccessDesc& b) {
+  // an access with no type/field information (e.g. an atomic store through a loaded pointer) is assumed to touch
+  // only scalars of its own size
+  if ((!a.tbaa && !a.st) || (!b.tbaa && !b.st)) return a.size && b.size && a.size != b.size;
+  if (a.tbaa && b.tbaa && a.tbaa != b.tbaa) return true;
+  if (a.st && b.st && a.st == b.st && a.size && b.size)
+    if (a.off + (int64_t)a.size <= b.off || b.off + (int64_t)b.size <= a.off) return true;
+  return false;
+}
+
+void Translator::computeStoredTypes(const Function* only) {
   storedTypesKnown = true;
+  storedUnknown = false;
+  writes.clear();
   for (const Function& F : M) {
-    if (!F.getName().startswith("vf_thread_") || F.isDeclaration()) continue;
+    if (&F != only) continue;
     for (const BasicBlock& BB : F)
       for (const Instruction& I : BB) {
-        bool writes = false;
-        if (auto* S = dyn_cast<StoreInst>(&I)) {
-          const Value* B = S->getPointerOperand()->stripPointerCasts();
-          if (isa<AllocaInst>(B)) continue;
-          writes = true;
-        } else if (isa<AtomicRMWInst>(I) || isa<AtomicCmpXchgInst>(I))
-          writes = true;
+        const Value* P = nullptr;
+        Type* VT = nullptr;
+        if (auto* S = dyn_cast<StoreInst>(&I)) { P = S->getPointerOperand(); VT = S->getValueOperand()->getType(); }
+        else if (auto* X = dyn_cast<AtomicRMWInst>(&I)) { P = X->getPointerOperand(); VT = X->getValOperand()->getType(); }
+        else if (auto* X = dyn_cast<AtomicCmpXchgInst>(&I)) { P = X->getPointerOperand(); VT = X->getNewValOperand()->getType(); }
         else if (auto* CB = dyn_cast<CallBase>(&I)) {
           if (auto* c = dyn_cast<Function>(CB->getCalledOperand()->stripPointerCasts()))
             if (c->isIntrinsic() && (c->getIntrinsicID() == Intrinsic::memcpy || c->getIntrinsicID() == Intrinsic::memmove ||
-                                     c->getIntrinsicID() == Intrinsic::memset || c->getIntrinsicID() == Intrinsic::memcpy_inline))
-              storedUnknown = true;
-        }
-        if (!writes) continue;
-        const MDNode* AT = tbaaAccessType(I);
-        if (!AT || isCharTbaa(AT)) {
-          // atomics from <atomic> carry no TBAA: remember the value type instead
-          Type* VT = isa<StoreInst>(I) ? cast<StoreInst>(I).getValueOperand()->getType() : I.getOperand(1)->getType();
-          if (isa<StoreInst>(I) && !cast<StoreInst>(I).isAtomic()) storedUnknown = true;
-          else storedAtomicTypes.insert(VT);
+                                     c->getIntrinsicID() == Intrinsic::memset || c->getIntrinsicID() == Intrinsic::memcpy_inline)) {
+              const Value* D = CB->getArgOperand(0)->stripPointerCasts();
+              if (auto* G = dyn_cast<GEPOperator>(D)) D = G->getPointerOperand()->stripPointerCasts();
+              bool priv = isa<AllocaInst>(D) || (isa<GlobalVariable>(D) && cast<GlobalVariable>(D)->isThreadLocal());
+              if (!priv) storedUnknown = true;
+            }
+          continue;
         } else
-          storedTypes.insert(AT);
+          continue;
+        const Value* B = P->stripPointerCasts();
+        if (auto* G = dyn_cast<GEPOperator>(B)) B = G->getPointerOperand()->stripPointerCasts();
+        if (isa<AllocaInst>(B)) continue;
+        if (auto* GV = dyn_cast<GlobalVariable>(B)) {
+          if (GV->isThreadLocal()) continue;
+          bool ghost = false;
+          for (auto& pre : ghostPrefixes) if (GV->getName().contains(pre)) ghost = true;
+          if (ghost) continue;
+        }
+        AccessDesc d = describeAccess(I, P, VT, DL);
+        if (!d.tbaa && !d.st && !d.size) storedUnknown = true;
+        writes.push_back(d);
       }
   }
 }
@@ -137,8 +173,11 @@ FnEmitter::Vis FnEmitter::visibility(const Instruction& I) {
     if (L->isAtomic() || L->isVolatile()) return isPrivateAddr(L->getPointerOperand()) ? INVISIBLE : VIS_READ;
     if (isPrivateAddr(L->getPointerOperand())) return INVISIBLE;
     if (T.plainVisible && T.storedTypesKnown && !T.storedUnknown) {
-      const MDNode* AT = tbaaAccessType(I);
-      if (AT && !isCharTbaa(AT) && !T.storedTypes.count(AT) && !T.storedAtomicTypes.count(L->getType())) {
+      AccessDesc d = describeAccess(I, L->getPointerOperand(), L->getType(), T.DL);
+      bool mayAlias = false;
+      for (auto& w : T.writes)
+        if (!provablyDisjoint(d, w)) { mayAlias = true; break; }
+      if (!mayAlias) {
         T.readOnlyLoads++;
         return INVISIBLE;
       }
@@ -276,9 +315,16 @@ void FnEmitter::run(raw_ostream& os) {
     os << " vf_thread_end: ;\n  vf_done[" << tid << "] = 1; vf_pc[" << tid << "] = 65535; vf_enabled[" << tid << "] = 1;\n  return;\n}\n\n";
     return;
   }
-  os << T.protoOf(&F, name) << " {\n";
+  if (tid >= 0) { // per-thread sequential copy (vf_tinit_*): tid is a constant, TLS resolves to copy tid
+    os << "void " << name << "__t" << tid << "(void) {\n";
+    for (const Argument& A : F.args()) {
+      if (A.getArgNo() != 0 || !A.getType()->isIntegerTy()) refuse("thread init function must take exactly one integer tid");
+      os << "  const " << ty(A.getType()) << " " << lname[&A] << " = " << tid << ";\n";
+    }
+  } else
+    os << T.protoOf(&F, name) << " {\n";
   for (const Argument& A : F.args())
-    if (A.hasByValAttr()) {
+    if (tid < 0 && A.hasByValAttr()) {
       Type* BT = A.getParamByValType();
       if (T.DL.getTypeAllocSize(BT) == 0) continue;
       os << "  " << ty(BT) << " bv" << A.getArgNo() << " = *(" << ty(BT) << "*)" << lname[&A] << "; " << lname[&A]
@@ -310,8 +356,8 @@ std::string Translator::protoOf(const Function* F, const std::string& name) {
   return s + ")";
 }
 
-void Translator::emitFunction(raw_ostream& os, const Function& F, int tid) {
-  FnEmitter E(*this, F, tid);
+void Translator::emitFunction(raw_ostream& os, const Function& F, int tid, bool step) {
+  FnEmitter E(*this, F, tid, step && tid >= 0);
   E.run(os);
 }
 
@@ -323,7 +369,11 @@ void Translator::emitScheduler(raw_ostream& os, const Function& F) {
      << "  VF_ASSUME(n <= " << nthreads << ");\n"
      << "  vf_probe_mode = 0;\n"
      << "  for (t = 0; t < " << nthreads << "; ++t) { vf_pc[t] = 0; vf_done[t] = (t >= n); vf_enabled[t] = 0; vf_blocked[t] = 0; }\n"
-     << "  vf_region_begin(n);\n"
+     << "  vf_region_begin(n);\n";
+  if (Function* TI = M.getFunction("vf_tinit_" + base))
+    if (!TI->isDeclaration())
+      for (int k = 0; k < nthreads; ++k) os << "  if (n > " << k << ") " << globalName(TI) << "__t" << k << "();\n";
+  os
      << "  for (s = 0; s < steps; ++s) {\n"
      << "    uint8_t all = 1; for (t = 0; t < " << nthreads << "; ++t) all &= vf_done[t];\n"
      << "    if (all) break;\n"
@@ -337,7 +387,7 @@ void Translator::emitScheduler(raw_ostream& os, const Function& F) {
      << "  for (t = 0; t < " << nthreads << "; ++t) live += !vf_done[t];\n"
      << "  if (live) {\n    vf_probe_mode = 1;\n";
   for (int k = 0; k < nthreads; ++k)
-    os << "    if (n > " << k << " && !vf_done[" << k << "]) { vf_cur = " << k << "; vf_blocked[" << k << "] = 0; vf_enabled[" << k << "] = 0; " << name
+    os << "    if (n > " << k << " && !vf_done[" << k << "]) { vf_cur = " << k << "; vf_blocked[" << k << "] = 0; vf_pausecnt[" << k << "] = 0; vf_enabled[" << k << "] = 0; " << name
        << "__t" << k << "(); nblocked += (vf_blocked[" << k << "] && !vf_enabled[" << k << "]); }\n";
   os << "    VF_ASSERT(nblocked < live, \"deadlock: every unfinished thread waits on a condition no thread can change\");\n"
      << "    VF_BOUND_ASSERT(stopped, \"scheduler step bound too small for a complete execution\");\n"
@@ -449,7 +499,6 @@ void Translator::emitModule(raw_ostream& os, const std::vector<std::string>& roo
         if (auto* CB = dyn_cast<CallBase>(&I))
           if (auto* c = dyn_cast<Function>(CB->getCalledOperand()->stripPointerCasts()))
             if (c->getName() == "longjmp" || c->getName() == "_longjmp" || c->getName() == "siglongjmp" || c->getName() == "__longjmp_chk") usesUnwind = true;
-  if (nthreads > 0) computeStoredTypes();
   std::string bodies, gdefs, gdecls, protos;
   raw_string_ostream bo(bodies), gdo(gdefs), gdc(gdecls), po(protos);
   for (auto* F : reachFOrder) {
@@ -465,7 +514,15 @@ void Translator::emitModule(raw_ostream& os, const std::vector<std::string>& roo
       (void)FT;
       continue;
     }
+    if (n.startswith("vf_tinit_") && nthreads > 0 && !decl) {
+      for (int k = 0; k < nthreads; ++k) {
+        po << "void " << globalName(F) << "__t" << k << "(void);\n";
+        emitFunction(bo, *F, k, false);
+      }
+      continue;
+    }
     if (isThreadEntry(F) && nthreads > 0) {
+      computeStoredTypes(F);
       for (int k = 0; k < nthreads; ++k) {
         po << "void " << globalName(F) << "__t" << k << "(void);\n";
         emitFunction(bo, *F, k);
@@ -544,7 +601,7 @@ static void inlineThreadBodies(Module& M) {
   std::vector<Function*> wl;
   std::set<Function*> seen;
   for (Function& F : M)
-    if (isThreadEntry(&F) && !F.isDeclaration()) { wl.push_back(&F); seen.insert(&F); }
+    if ((isThreadEntry(&F) || F.getName().startswith("vf_tinit_")) && !F.isDeclaration()) { wl.push_back(&F); seen.insert(&F); }
   if (wl.empty()) return;
   while (!wl.empty()) {
     Function* F = wl.back();
@@ -556,7 +613,7 @@ static void inlineThreadBodies(Module& M) {
             if (!c->isDeclaration() && !c->hasAvailableExternallyLinkage() && seen.insert(c).second) wl.push_back(c);
   }
   for (Function* F : seen) {
-    if (isThreadEntry(F)) continue;
+    if (isThreadEntry(F) || F->getName().startswith("vf_tinit_")) continue;
     F->removeFnAttr(Attribute::NoInline);
     F->removeFnAttr(Attribute::OptimizeNone);
     F->addFnAttr(Attribute::AlwaysInline);
@@ -571,7 +628,7 @@ static void inlineThreadBodies(Module& M) {
   PM.add(createCFGSimplificationPass());
   PM.run(M);
   for (Function& F : M) {
-    if (!isThreadEntry(&F) || F.isDeclaration()) continue;
+    if (!(isThreadEntry(&F) || F.getName().startswith("vf_tinit_")) || F.isDeclaration()) continue;
     for (BasicBlock& BB : F)
       for (Instruction& I : BB)
         if (auto* CB = dyn_cast<CallBase>(&I))
@@ -609,7 +666,7 @@ int main(int argc, char** argv) {
       if (!F.isDeclaration() && (F.getName().startswith("ob_") || isThreadEntry(&F))) roots.push_back(F.getName().str());
   if (Threads > 0)
     for (Function& F : *M)
-      if (!F.isDeclaration() && isThreadEntry(&F) && std::find(roots.begin(), roots.end(), F.getName().str()) == roots.end())
+      if (!F.isDeclaration() && (isThreadEntry(&F) || F.getName().startswith("vf_tinit_")) && std::find(roots.begin(), roots.end(), F.getName().str()) == roots.end())
         roots.push_back(F.getName().str());
   Translator T(*M);
   T.nthreads = Threads;
